@@ -53,6 +53,26 @@ mut("c15-foreach-skip-last", [(L, LFE_OLD, """	wg.Add(ego.Ego().Count())
 	}
 	wg.Wait()
 	return ego.Ego()""")], ["C15"], note="last element of long lists skipped")
+mut("c04-parsefile-single-read-assumes-full", [(P, """	data, err := os.ReadFile(path)
+	if err != nil {
+		return nil, err
+	}""", """	file, err := os.Open(path)
+	if err != nil {
+		return nil, err
+	}
+	defer file.Close()
+	info, err := file.Stat()
+	if err != nil {
+		return nil, err
+	}
+	// The size is known, one read into a buffer of that size is enough.
+	data := make([]byte, info.Size())
+	n, err := file.Read(data)
+	if err != nil && err != io.EOF {
+		return nil, err
+	}
+	data = data[:n]"""), (P, 'import (\n\t"fmt"\n', 'import (\n\t"fmt"\n\t"io"\n')], ["C04"],
+    note="ParseFile opens the file and issues one Read of Stat().Size() bytes: only a disk that delivers short reads shows it (rule R14)")
 mut("c15-list-string-memo-unsynchronised", [(L, "type list struct {\n\tval []field\n\tptr List\n}", "type list struct {\n\tval []field\n\tptr List\n\tstr string\n\tstrLen int\n}"),
     (L, "func (ego *list) String() string {\n\treturn ego.Ego().serialize()\n}",
      "func (ego *list) String() string {\n\tif ego.strLen == len(ego.val)+1 {\n\t\treturn ego.str\n\t}\n\tego.str = ego.Ego().serialize()\n\tego.strLen = len(ego.val) + 1\n\treturn ego.str\n}")],
